@@ -36,6 +36,14 @@ CLAIMED = {
    technique="deterministic simulation: seeded call histories (including failing calls and shared objects) in one long-lived process versus the same call's dependency slice in a pristine forked interpreter; before/after snapshots of arguments",
    text="Seeded histories of 5-60 public calls over schema families that reuse type names with different definitions, shared raw/parsed schema objects, shared named-schema dictionaries, Writer handles and failing calls are executed in one process; for each checked call only its dependency slice is re-evaluated in a pristine forked interpreter and value, stream bytes and exception class must agree; every schema and datum argument is snapshotted before and after each call. Seeded sampling of histories.",
    note="trusted: fork of a process that imported but never called fastavro stands for a fresh interpreter (sampled against real subprocess interpreters in the self-test); the slicing rule (object-level data flow incl. named-schema dictionaries)"),
+ "C19": dict(cat="exploration", ref="DESIGN.md 4 (C19)",
+   technique="deterministic simulation: schema storage behind the repository seam (real directory and in-memory repository), seeded dependency graphs and delivery orders, complete single-fault enumeration (any one file missing)",
+   text="Seeded acyclic dependency graphs of named types are stored one per file and loaded through the real FlatDictRepository and a logging in-memory repository; the result must have the canonical form and datum encoding of the inline-at-first-use parse; load_schema_ordered is driven with a seeded linear extension of the dependency order; for every reachable type the 'file missing' fault is injected (all of them, per graph) and loading must raise naming that type.",
+   note="trusted: the generator's inline oracle (first use in document order) and fastavro's parse_schema / canonical form on it; only the missing-file fault is modelled"),
+ "C20": dict(cat="exploration", ref="DESIGN.md 4 (C20)",
+   technique="deterministic simulation: the library's random source behind a seam (seeded SimRandom with injected extreme draws, seeded uuid4); generated values checked by validate, an independent conformance predicate, both writers and read-back",
+   text="fastavro.utils.random is replaced by a seeded generator that additionally injects boundary draws each of which the real source can produce; for seeded schemas (all kinds, logical types, by-name references, one nullable self-reference) and counts the generated values must be exactly n, validate, satisfy an independent conformance predicate, be accepted by the schemaless and container writers and read back without error. Non-terminating recursive schemas are a known finding kept as fixed probes.",
+   note="trusted: refavro.conforms; the argument that each injected draw is reachable by the real generator; two known findings listed in KNOWN_FINDINGS.txt"),
 }
 
 NA = {
